@@ -92,4 +92,25 @@ EXTRA = [
          "            if not cands:\n                meta_type = Unknown\n            else:\n                meta_type = DUnion(*cands)\n"),
         (J + "generator.py", "            meta_type = types[0]\n", "            meta_type = cands[0]\n"),
     ]),
+    ("load_through_helper", "the loader is applied through a small helper method", [
+        (J + "cli.py", "                iterator = iter_json_file(parser(real_path), lookup)",
+         "                iterator = iter_json_file(self._load(parser, real_path), lookup)"),
+        (J + "cli.py", "    def set_args(\n", "    @staticmethod\n    def _load(parser, path):\n        return parser(path)\n\n    def set_args(\n"),
+    ]),
+    ("detect_items_prelist", "list items are materialised before their types are detected", [
+        (J + "generator.py", "                types = [self._detect_type(item) for item in value]\n                if len(types) > 1:\n                    union = DUnion(*types)\n                    if len(union.types) == 1:\n                        return DList(*union.types)",
+         "                items = list(value)\n                types = [self._detect_type(item) for item in items]\n                if len(types) > 1:\n                    union = DUnion(*types)\n                    if len(union.types) == 1:\n                        return DList(*union.types)"),
+    ]),
+    ("preamble_store_conditional_expr", "the preamble is normalised in one conditional expression", [
+        (J + "cli.py", "        if preamble:\n            preamble = preamble.strip()\n        self.preamble = preamble or None\n",
+         "        self.preamble = (preamble.strip() or None) if preamble else None\n"),
+    ]),
+    ("lookup_dict_first", "iter_json_file tests for an object before a list", [
+        (J + "cli.py", "    if isinstance(item, list):\n        yield from item\n    elif isinstance(item, dict):\n        yield item\n",
+         "    if isinstance(item, dict):\n        yield item\n    elif isinstance(item, list):\n        yield from item\n"),
+    ]),
+    ("final_pass_over_values", "the final simplification pass iterates the registry mapping's values", [
+        (J + "registry.py", "        for model_meta in self.models:\n            generator.optimize_type(model_meta)\n        return replaces",
+         "        for model_meta in self._registry.values():\n            generator.optimize_type(model_meta)\n        return replaces"),
+    ]),
 ]
